@@ -28,6 +28,8 @@ TUS = {
     "t_fmanip": {"sources": ["t_fmanip.cpp"], "parts": FLT_PARTS, "shards": {"thorough": {"f32": 5}}},
     "t_fclass": {"sources": ["t_fclass.cpp"], "parts": FLT_PARTS, "cfg_flags": exh_quick_flags, "shards": {"quick": {"f32": 6}, "thorough": {"f32": 6}}},
     "t_mask": {"sources": ["t_mask.cpp"], "parts": INT_PARTS + FLT_PARTS},
+    "t_mem": {"sources": ["t_mem.cpp"], "parts": INT_PARTS + FLT_PARTS},
+    "t_memfp": {"sources": ["t_mem.cpp"], "parts": INT_PARTS + FLT_PARTS, "flags": ["-DVX_FOOTPRINT=1"]},
     "t_select": {"sources": ["t_select.cpp"], "parts": INT_PARTS + FLT_PARTS},
 }
 
@@ -174,5 +176,27 @@ PROPS = {
                        "an array-of-bool model, and in every new state count/any/all/none, ==/!=, Vector(mask), mask(Vector(mask)), set_bits, keep/clear/blend, inequality with every "
                        "one-lane neighbour, canonical raw representation and 'equal lanes implies ==' are checked",
         "assumptions": ["a failing BFS case is replayed by repeating the deterministic search for its subject"],
+    },
+    "C08": {
+        "tus": ["t_mem"],
+        "configs": int_cfgs,
+        "rule": "for every vector type: every element count n in 0..W+2 x every element-aligned start offset inside a 64-byte line (aligned forms: multiples of alignof(V)) "
+                "x 2 payload patterns with a distinct value per lane, for load / aligned_load / store / aligned_store in run-time, default and compile-time <N> forms (every N in 0..W); "
+                "gather / scatter (32/64-bit types): 6 index shapes (identity, reversed, stride 3, descending, negative, all-equal) x every n in 0..W+1 x 2 patterns; to_array, the array "
+                "constructor, extract<I> and insert<I> for every I. non-trivial: partial counts (0 < n < W).",
+        "explanation": "the environment (where the buffer sits, what surrounds it) is enumerated completely: every call runs in a three-page arena pre-filled with canaries; loaded lanes "
+                       "must equal memory in order with the rest zero, a store must change exactly bytes [0, min(n,W)*size) and leave every other arena byte a canary",
+        "assumptions": ["a failing case is replayed by repeating the deterministic enumeration for its subject"],
+    },
+    "C09": {
+        "tus": ["t_memfp"],
+        "configs": int_cfgs,
+        "rule": "for every vector type and every n in 0..W+1: a buffer of exactly min(n,W) elements placed (i) ending at a page boundary followed by an inaccessible page and (ii) starting at a "
+                "page boundary preceded by one, the neighbour being PROT_NONE or PROT_READ (write-back of old bytes faults), for every load/store form; n == 0 with a null pointer and pointers "
+                "inside PROT_NONE memory; gather/scatter with the table flush against PROT_NONE pages and wild indices (INT_MAX, INT_MIN, +-3 pages, 2^30) in the inactive lanes. "
+                "non-trivial: n != W.",
+        "explanation": "every call under a SIGSEGV/SIGBUS handler; oracle: no signal, loaded lanes correct, canaries outside the stored elements intact. Reads are observable at page "
+                       "granularity only (an over-read that stays inside the page is invisible); the verdict on masked-store fault suppression is for this CPU",
+        "assumptions": ["read footprint is observable only at page granularity", "a failing case is replayed by repeating the deterministic enumeration for its subject"],
     },
 }
